@@ -45,7 +45,9 @@ class SaveLoad(Suite):
         for fmt, kind, save_dtype, read_dtype in combos:
             shape = [rng.choice([1, 2, 3, 4, 5, 7]) for _ in range(3)] + [rng.choice([1, 1, 3])]
             out.append({"class": f"{fmt}/{kind}->{save_dtype}->{read_dtype}", "shape": shape, "kind": kind, "fmt": fmt, "save_dtype": save_dtype,
-                        "read_dtype": read_dtype, "seed": rng.randrange(10**6), "drop_c": shape[3] == 1 and rng.random() < 0.4})
+                        "read_dtype": read_dtype, "seed": rng.randrange(10**6), "drop_c": shape[3] == 1 and rng.random() < 0.4,
+                        # writer options the call forwards to tifffile: the caller's own metadata, no compression
+                        "opts": rng.choice(["-", "-", "metadata", "nocompress", "metadata"]) if fmt == "tif" else "-"})
         return out
 
     def run(self, case):
@@ -66,7 +68,8 @@ class SaveLoad(Suite):
             with warnings.catch_warnings():
                 warnings.simplefilter("ignore")
                 if case["fmt"] == "tif":
-                    save_tiff(data.copy(), fn, dtype=None if case["save_dtype"] is None else np.dtype(case["save_dtype"]).type)
+                    kw = {"metadata": {"unit": "um", "note": "c20"}} if case.get("opts") == "metadata" else ({"compression": False} if case.get("opts") == "nocompress" else {})
+                    save_tiff(data.copy(), fn, dtype=None if case["save_dtype"] is None else np.dtype(case["save_dtype"]).type, **kw)
                 elif case["fmt"] == "nrrd":
                     nrrd.write(fn, data.copy())
                 else:
@@ -158,7 +161,7 @@ class Raster(Suite):
                     # an edge whose one end ball contains the other (child tucked inside the parent ball or the other way round)
                     t2 = {**t, "xyz": [list(p) for p in t["xyz"]], "r": list(t["r"])}
                     c = rng.randrange(1, t2["n"]); par = t2["pids"][c]
-                    d = [rng.choice([-2, -1, 0, 1, 2]) / 6.0 for _ in range(3)]
+                    d = [rng.choice([-4, -3, -2, -1, 0, 1, 2, 3, 4]) / 6.0 for _ in range(3)]
                     t2["xyz"][c] = [t2["xyz"][par][i] + d[i] for i in range(3)]
                     big, small = rng.choice([(1.5, 0.5), (1.0, 0.5), (1.5, 1.0), (1.0, 1.0)])
                     t2["r"][par], t2["r"][c] = (big, small) if rng.random() < 0.6 else (small, big)
@@ -171,6 +174,12 @@ class Raster(Suite):
                        ([[0.0, 0.0, 0.0], [0.0, 0.0, 0.5], [2.0, 0.0, 0.5]], [1.0, 0.5, 0.5])):
             t = {"class": "chain/sorted", "n": 3, "pids": [-1, 0, 1], "types": [1, 3, 3], "xyz": xyz, "r": r}
             out.append({"class": "n3/degenerate-edge", "tree": t, "res": 0.5})
+        # short edges between balls of different size that are NOT contained in one another (|r1-r2| < d ≤ sqrt|r1²-r2²|): the thin ball and
+        # the conical flank stick out of the thick ball
+        for xyz, r in (([[0.0, 0.0, 0.0], [1.25, 0.0, 0.0]], [1.5, 0.5]), ([[0.0, 0.0, 0.0], [0.0, 0.75, 0.25]], [1.0, 0.5]),
+                       ([[0.0, 0.0, 0.0], [0.0, 0.0, 1.25]], [0.5, 1.5]), ([[0.5, 0.5, 0.0], [1.25, 1.25, 0.5]], [1.5, 0.5])):
+            t = {"class": "chain/sorted", "n": 2, "pids": [-1, 0], "types": [1, 3], "xyz": xyz, "r": r}
+            out.append({"class": "n2/nearly-contained", "tree": t, "res": 0.25})
         # resolutions that do not divide the height of the bounding box: the last, partially filled slice must be there
         t = gen.tree_case(rng, 2, "chain", numbering="sorted", coords="lattice")
         t["xyz"] = [[0.0, 0.0, 0.0], [0.5, 0.0, 3.0]]; t["r"] = [1.0, 1.0]      # z-extent of the box: 5
